@@ -453,7 +453,7 @@ class Check:
     def death_is_violation(self, death, case_desc, replay, sig_prefix='', sig_suffix=''):
         """Route a worker death through known-finding signatures. Returns True if it was recorded (either way)."""
         kind = death['kind']
-        if kind == 'inconclusive' or kind == 'wall-timeout':
+        if kind == 'inconclusive' or kind == 'wall-timeout' or kind == 'skipped':
             self.inconclusive += 1
             return True
         if kind == 'cpu-timeout':
@@ -538,7 +538,7 @@ class Check:
 # ----------------------------------------------------------------------------------------------
 # batched execution with per-item attribution
 
-def run_items(runner, prefix_steps, items, batch=25, base_cpu_ms=4000, item_cpu_ms=None, counters=None):
+def run_items(runner, prefix_steps, items, batch=25, base_cpu_ms=4000, item_cpu_ms=None, counters=None, max_deaths=60):
     """items: list of step lists. Items are run `batch` at a time behind `prefix_steps` (one case each batch,
     with the step journal on). A batch whose worker dies is split: the item that was executing is re-run
     alone (fresh VM) and judged by that run; the items before and after it are re-run in new batches.
@@ -567,6 +567,15 @@ def run_items(runner, prefix_steps, items, batch=25, base_cpu_ms=4000, item_cpu_
         rounds += 1
         if rounds > 60:
             raise HarnessError('run_items: batches keep dying')
+        if len(suspects) > max_deaths:
+            # the tree under test is evidently broken: the deaths seen so far are reported, the rest is not explored
+            for g in groups:
+                for i in g:
+                    if out[i] is None:
+                        out[i] = Death(kind='skipped')
+            if counters is not None:
+                counters['items_skipped_after_many_deaths'] = sum(len(g) for g in groups)
+            break
         t_round = time.time()
         results = runner.run([mk(g) for g in groups])
         if os.environ.get('VERIF_DEBUG'):
